@@ -5,7 +5,7 @@ import os, subprocess, sys, hashlib
 from .interp import Facts
 from . import extract
 
-VERIF = os.environ.get("VERIF_DIR", "/verif")
+VERIF = "/verif"
 
 
 class Ctx:
